@@ -43,4 +43,10 @@ theorem realCodes_ok : ∀ t, isConsensusType realCodes t = true → isBatchable
     Gen.common_TransactionTypeWithdrawalSubmit, Gen.common_TransactionTypeWithdrawalClaim] at *
   omega
 
+/-- `validateSnapshotTransaction` runs the kernel snapshot rule in both branches (persisted body
+    and cached body) and persists only in the cached one -/
+theorem vst_calls_kernel_rule_in_both_branches :
+    "validateKernelSnapshot*2" ∈ Gen.kernel_Node_validateSnapshotTransaction_calls ∧
+      "lockAndPersistTransaction*1" ∈ Gen.kernel_Node_validateSnapshotTransaction_calls := by decide
+
 end Mixin.Facts.ExpectedC28
